@@ -258,9 +258,38 @@ fn encframe(f: &Fields) -> String {
     format!("ok bytes={} {}", hex(&out[start..]), dec)
 }
 
+/// facts about a finished file read back through the crate's own metadata reader and frame walker
+fn file_facts(file: &[u8]) -> String {
+    use flac_codec::stream::FrameIterator;
+    let mut s = String::new();
+    match FrameIterator::new(Cursor::new(file.to_vec())) {
+        Ok(it) => {
+            s.push_str(&format!(" {} metalen={}", meta_str(&it), it.metadata_len()));
+            let mut lens = Vec::new();
+            let mut offs = Vec::new();
+            let mut bad = String::new();
+            for fr in it {
+                match fr {
+                    Ok((frame, off)) => {
+                        lens.push(u16::from(frame.header.block_size) as u64);
+                        offs.push(off);
+                    }
+                    Err(e) => {
+                        bad = format!(" walkerr={}", errclass(&e));
+                        break;
+                    }
+                }
+            }
+            s.push_str(&format!(" lens={} offs={}{}", join(lens.iter()), join(offs.iter()), bad));
+        }
+        Err(e) => s.push_str(&format!(" walkopen={}", errclass(&e))),
+    }
+    s
+}
+
 fn finish_file(res: Result<(), String>, file: &[u8]) -> String {
     match res {
-        Ok(()) => format!("ok file={}", hex(file)),
+        Ok(()) => format!("ok file={}{}", hex(file), file_facts(file)),
         Err(e) => format!("err {} file={}", e, hex(file)),
     }
 }
@@ -356,7 +385,25 @@ fn wr(f: &Fields) -> String {
         other => Err(format!("harness-error bad-fe {}", other)),
     };
     let file = cur.into_inner();
-    finish_file(res, &file[start.min(file.len())..])
+    let mut out = finish_file(res, &file[start.min(file.len())..]);
+    if num::<u8>(f, "ref", 0) != 0 && out.starts_with("ok") {
+        // reference: the same PCM (whole PCM frames only) in ONE call of the sample writer
+        let chn = ch.max(1) as usize;
+        let whole = &pcm[..pcm.len() - pcm.len() % chn];
+        let mut rc = Cursor::new(vec![0xAAu8; start]);
+        rc.set_position(start as u64);
+        let r = (|| {
+            let mut w = FlacSampleWriter::new(&mut rc, options(f).unwrap(), rate, bps, ch, total.map(|_| whole.len() as u64)).map_err(|e| errclass(&e))?;
+            w.write(whole).map_err(|e| errclass(&e))?;
+            w.finalize().map_err(|e| errclass(&e))
+        })();
+        let rf = rc.into_inner();
+        out.push_str(&match r {
+            Ok(()) => format!(" sameasref={}", rf[start..] == file[start.min(file.len())..]),
+            Err(e) => format!(" sameasref=referr:{}", e),
+        });
+    }
+    out
 }
 
 /// structural parser (`stream::Frame::read{,_subset}`), re-serialisation and expansion
